@@ -4,8 +4,8 @@ import (
 	"errors"
 	"fmt"
 	"net/url"
-	"reflect"
 	"os"
+	"reflect"
 	"regexp"
 	"strings"
 	"sync"
